@@ -321,6 +321,8 @@ def run(ctx):
                   f"{len(via)} content stores, all through the validating setters",
                   (f"`{U(direct[0].stmt)[:70]}` bypasses the validating setter: a negative or wrongly shaped result is stored "
                    "instead of refused") if direct else "content stores not found", fi.where)
+    from rules import c13 as _c13
+    _c13.check_init_through_setter(ctx, "C18.b", m)
     # co-update of the two arrays outside the setters
     for c in m.classes.values():
         if not m.is_subclass(c, "HistogramBase"):
